@@ -90,14 +90,17 @@ pub fn methods(fl: &str, tr: bool, g: &GraphSpec, all_subsets: bool, cap: usize,
 
 pub fn random_graph(rng: &mut Rng, max_n: usize) -> GraphSpec {
     let n = 1 + rng.below(max_n);
-    let shape = rng.below(6);
+    let shape = rng.below(8);
     let mut edges = vec![];
     let m = match shape {
         0 => rng.below(n + 1),              // sparse
         1 => n + rng.below(2 * n + 1),      // medium
         2 => rng.below(n * n / 2 + 1).min(120), // dense
+        6 | 7 if max_n >= 6 => 20 + rng.below(70), // a hub of high degree (list growth thresholds 4, 8, 16, 32, 64)
         _ => rng.below(2 * n + 1),
     };
+    // values: mostly a small range (ties matter), sometimes the extremes of the payload types
+    let wide = rng.chance(15);
     for i in 0..m {
         let (mut u, mut v) = (rng.below(n), rng.below(n));
         match shape {
@@ -129,6 +132,10 @@ pub fn random_graph(rng: &mut Rng, max_n: usize) -> GraphSpec {
             }
             _ => {}
         }
+        if (shape == 6 || shape == 7) && max_n >= 6 {
+            // fan out of / into node 0, with parallel edges
+            if shape == 6 { u = 0 } else { v = 0 }
+        }
         if rng.chance(8) {
             v = u;
         }
@@ -137,9 +144,10 @@ pub fn random_graph(rng: &mut Rng, max_n: usize) -> GraphSpec {
             u = a;
             v = b;
         }
-        edges.push((u, v, (i % 5) as u32));
+        let e = if wide { [0u32, 1, u32::MAX, 1 << 31, u32::MAX - 1, 7][rng.below(6)] } else { (i % 5) as u32 };
+        edges.push((u, v, e));
     }
-    let vals = (0..n).map(|_| rng.below(4) as i64).collect();
+    let vals = (0..n).map(|_| if wide { [i64::MIN, -1, 0, 1, i64::MAX, i64::MIN + 1][rng.below(6)] } else { rng.below(4) as i64 }).collect();
     GraphSpec { n, vals, edges }
 }
 
